@@ -24,6 +24,7 @@ type Config struct {
 	ExecPrefixes     []string // package path prefixes executed from SSA
 	StopAtFirst      bool
 	ConcreteClock    bool
+	UnwindCut        bool // loops that exceed the bound cut the path (counted) instead of failing the obligation
 	Deadline         time.Time
 	TraceInstr       bool
 	PanicIsViolation bool
@@ -1184,7 +1185,9 @@ func (e *Engine) jump(st *State, th *Thread, fr *Frame, to *ssa.BasicBlock) ([]*
 		}
 		fr.Visits[to.Index]++
 		if fr.Visits[to.Index] > e.Cfg.Unwind {
-			e.recordViolation(st, nil, &Violation{Kind: "unwind", Label: "unwinding bound exceeded", Pos: posStr(e.Fset, firstPos(to)), Fn: fr.Info.Fn.String()})
+			if !e.Cfg.UnwindCut {
+				e.recordViolation(st, nil, &Violation{Kind: "unwind", Label: "unwinding bound exceeded", Pos: posStr(e.Fset, firstPos(to)), Fn: fr.Info.Fn.String()})
+			}
 			e.endPath(st, "unwind")
 			return []*State{}, false
 		}
